@@ -217,18 +217,12 @@ def model_check(family, module, cfg, timeout=900, workers=None, expect_ok=True, 
     return r
 
 
-def validate_trace(family, module, cfg, trace_path, timeout=1800, extra_env=None):
-    """Trace validation. The trace specs are deterministic monitors: they consume the ndjson file
-    line by line (variable `l`), keep the *set* of abstract states compatible with the observations so
-    far and, when that set becomes empty, append the case id to `failed` and skip to the next `reset`
-    record.  The POSTCONDITION writes `failed` to $VK_SCRATCH/failed.json and requires that every line
-    was consumed.  Returns (list of failed case records, TLCResult)."""
+def _validate_one(family, module, cfg, trace_path, timeout, extra_env):
     env = {"TRACE": os.path.abspath(trace_path)}
     if extra_env:
         env.update(extra_env)
     r = run_tlc(family, module, cfg, timeout=timeout, workers=1, env_extra=env, deadlock=False,
                 keep=["failed.json"])
-    log("[vk] TLC trace %s/%s on %s: rc=%s states=%d %.1fs" % (family, module, os.path.basename(trace_path), r.rc, r.distinct, r.wall))
     if "failed.json" not in r.files:
         raise MachineryError("trace validation did not finish (%s/%s):\n%s" % (family, module, r.out[-4000:]))
     data = json.loads(r.files["failed.json"])
@@ -238,6 +232,66 @@ def validate_trace(family, module, cfg, trace_path, timeout=1800, extra_env=None
     if r.rc != 0:
         raise MachineryError("trace validation TLC exit %s:\n%s" % (r.rc, r.out[-4000:]))
     return data.get("failed", []), r
+
+
+SHARD_LINES = 12000     # a trace longer than twice this is validated in shards, in parallel
+MAX_SHARDS = 12
+
+
+def validate_trace(family, module, cfg, trace_path, timeout=1800, extra_env=None):
+    """Trace validation. The trace specs are deterministic monitors: they consume the ndjson file
+    line by line (variable `l`), keep the *set* of abstract states compatible with the observations so
+    far and, when that set becomes empty, append the case id to `failed` and skip to the next `reset`
+    record.  The POSTCONDITION writes `failed` to $VK_SCRATCH/failed.json and requires that every line
+    was consumed.  Cases are independent (every case starts from its own `reset` / `one` record), so a
+    long trace is cut at case boundaries into shards that are validated by TLC processes in parallel;
+    line numbers of rejections are translated back.  Returns (list of failed case records, TLCResult)."""
+    t0 = time.time()
+    with open(trace_path) as f:
+        lines = [ln for ln in f if ln.strip()]
+    if len(lines) < 2 * SHARD_LINES:
+        failed, r = _validate_one(family, module, cfg, trace_path, timeout, extra_env)
+        log("[vk] TLC trace %s/%s on %s: rc=%s states=%d %.1fs" % (family, module, os.path.basename(trace_path), r.rc, r.distinct, r.wall))
+        return failed, r
+    nshards = min(MAX_SHARDS, max(2, len(lines) // SHARD_LINES))
+    target = (len(lines) + nshards - 1) // nshards
+    starts = [0]
+    for i, ln in enumerate(lines):
+        if i - starts[-1] >= target and ('"ev":"reset"' in ln.replace('": "', '":"') or '"ev":"one"' in ln.replace('": "', '":"')):
+            starts.append(i)
+    shards = []
+    for k, a in enumerate(starts):
+        b = starts[k + 1] if k + 1 < len(starts) else len(lines)
+        path = "%s.shard%d" % (trace_path, k)
+        with open(path, "w") as f:
+            f.writelines(lines[a:b])
+        shards.append((path, a))
+    import concurrent.futures
+    results = []
+    try:
+        with concurrent.futures.ThreadPoolExecutor(max_workers=len(shards)) as ex:
+            futs = [ex.submit(_validate_one, family, module, cfg, path, timeout, extra_env) for (path, _) in shards]
+            for (path, off), fu in zip(shards, futs):
+                failed, r = fu.result()
+                results.append((off, failed, r))
+    finally:
+        for (path, _) in shards:
+            if os.path.exists(path):
+                os.remove(path)
+    allfailed = []
+    total = TLCResult()
+    total.rc, total.ok = 0, True
+    for off, failed, r in results:
+        for fr in failed:
+            fr = dict(fr)
+            if "line" in fr:
+                fr["line"] = fr["line"] + off
+            allfailed.append(fr)
+        total.distinct += r.distinct
+        total.generated += r.generated
+    total.wall = time.time() - t0
+    log("[vk] TLC trace %s/%s on %s: %d shards, states=%d %.1fs" % (family, module, os.path.basename(trace_path), len(shards), total.distinct, total.wall))
+    return allfailed, total
 
 
 # ------------------------------------------------------------------------------------------------
